@@ -69,7 +69,7 @@ def r1_divisor(ctx):
                     for h, lab in cfg.if_guards(r):
                         if full in U(cfg.stmt[h].test) and cfg.reachable(n, h):
                             guards.append((h, lab, r))
-                good = False
+                good, refusing = False, []
                 for h, lab, r in guards:
                     try:
                         refuses0 = bool(eval_guard(cfg.stmt[h].test, {full: 0})) == lab
@@ -79,6 +79,40 @@ def r1_divisor(ctx):
                         continue
                     if refuses0 and refusesm and accepts1 and cfg.all_paths_pass(n, [h]) and raised_class_name(cfg.stmt[r]) == "LeaspyAlgoInputError":
                         good = True
+                        refusing.append((h, lab, r))
+                # the plateaus fit in the annealing iterations: period * (n_plateau - 1) <= n_iter for every accepted configuration, otherwise
+                # fewer than n_plateau - 1 decrements happen and the temperature never reaches 1
+                if good and attr == "_annealing_period":
+                    NI, NP = "self.algo_parameters['annealing']['n_iter']", "self.algo_parameters['annealing']['n_plateau']"
+
+                    def hook(c):
+                        fn = U(c.func)
+                        if fn in ("max", "min", "int", "round", "abs") and not c.keywords:
+                            vs = [eval_guard(a, env, hook) for a in c.args]
+                            return {"max": max, "min": min, "int": int, "round": round, "abs": abs}[fn](*vs) if fn in ("int", "round", "abs") else {"max": max, "min": min}[fn](vs)
+                        return NotImplemented
+                    late, undec = None, None
+                    for N in range(1, 41):
+                        for P in range(2, 14):
+                            env = {NI: N, NP: P, NI.replace("'", '"'): N, NP.replace("'", '"'): P}
+                            try:
+                                per = eval_guard(v, env, hook)
+                                env[full] = per
+                                refused = any(bool(eval_guard(cfg.stmt[h].test, env, hook)) == lab for h, lab, r in refusing)
+                            except (GuardUnsupported, ZeroDivisionError, TypeError) as e:
+                                undec = undec or f"{type(e).__name__}: {e}"
+                                continue
+                            if not refused and not (per >= 1 and per * (P - 1) <= N) and late is None:
+                                late = (N, P, per)
+                    if late:
+                        N, P, per = late
+                        ctx.violation("C19.R1", f, st, f"`{full}` = `{U(v)[:70]}`: the configuration annealing.n_iter={N}, n_plateau={P} is accepted with a plateau of {per} iteration(s), "
+                                      f"but {P - 1} plateaus of that length need {per * (P - 1)} iterations: only {N // per} of the {P - 1} decrements happen and the temperature never reaches 1",
+                                      construct=full + " [plateaus fit]")
+                    elif undec:
+                        ctx.unknown("C19.R1", f, st, f"cannot evaluate the plateau length `{U(v)[:60]}` ({undec})", construct=full + " [plateaus fit]")
+                    else:
+                        ctx.ok("C19.R1", f, st, "period * (n_plateau - 1) <= n_iter for every accepted (n_iter, n_plateau) in 1..40 x 2..13", construct=full + " [plateaus fit]")
                 ctx.check(good, "C19.R1", f, st, f"followed on every path by a guard refusing `{full}` < 1 with LeaspyAlgoInputError",
                           f"`{full}` = `{U(v)[:70]}` can be 0 (e.g. fewer annealing iterations than plateaus) and is later used as a modulo divisor: ZeroDivisionError "
                           "instead of a refused configuration", construct=full)
